@@ -123,6 +123,23 @@ def judge_generic(cfg, stmts, ns, mode):
         got.append((p, t[1] if t[0] == "iri" else t))
     if got != want_ns:
         return _ns_diff("sink-namespaces-differ", "generic:sink.parse", got, want_ns)
+    # the same on a sink that was USED before (it holds a binding and a statement of its own, or has parsed this file once
+    # already): parse() loads the file - what the sink lists afterwards are the file's declarations
+    from pyjelly.integrations.generic.generic_sink import IRI as _IRI, Triple as _Triple
+    for how in ("bound-before", "parsed-twice"):
+        used = GenericStatementSink()
+        if how == "bound-before":
+            used.bind("zz-earlier", _IRI("http://earlier.example/ns#"))
+            used.add(_Triple(_IRI("http://earlier.example/s"), _IRI("http://earlier.example/p"), _IRI("http://earlier.example/o")))
+        else:
+            used.parse(io.BytesIO(d_on))
+        used.parse(io.BytesIO(d_on))
+        got2 = []
+        for p, iri in used.namespaces:
+            t = T.from_generic(iri)
+            got2.append((p, t[1] if t[0] == "iri" else t))
+        if got2 != want_ns:
+            return _ns_diff("sink-namespaces-differ", f"generic:sink.parse on a sink that was {how}", got2, want_ns)
     from pyjelly.integrations.generic import serialize as gser
     out = io.BytesIO()
     stream = pj.make_stream(on)
